@@ -418,10 +418,47 @@ def parse_closure(prog: Program) -> List[FuncInfo]:
     return sorted(cl, key=lambda f: f.qual)
 
 
+def _const_template(e: ast.AST) -> bool:
+    if isinstance(e, ast.Constant) and isinstance(e.value, str):
+        return True
+    if isinstance(e, ast.BinOp) and isinstance(e.op, ast.Add):
+        return _const_template(e.left) and _const_template(e.right)
+    if isinstance(e, ast.JoinedStr):
+        return all(isinstance(v, ast.Constant) for v in e.values)
+    return False
+
+
+def d2c_templates(chk: Check, cl: List[FuncInfo],
+                  rid: str = "C14-D2c") -> None:
+    """str.format() interprets braces in its *receiver*.  A receiver that
+    already embeds run-time text (an f-string, a concatenation with a
+    variable) makes format() raise ValueError / KeyError / IndexError for
+    input containing `{` or `}` -- from inside the `raise` that was meant
+    to report the input."""
+    chk.rule(rid, "every .format() in the closure is applied to a constant "
+             "template", floor=20)
+    for fi in cl:
+        for c in walk_local(fi.node):
+            if not (isinstance(c, ast.Call) and
+                    isinstance(c.func, ast.Attribute) and
+                    c.func.attr == "format"):
+                continue
+            text = "{}: {}.format(...)".format(fi.short,
+                                               src(c.func.value)[:40])
+            if _const_template(c.func.value):
+                chk.ok(rid, fi, c, text, "constant template", False)
+            else:
+                chk.fail(rid, fi, c, text,
+                         "the template embeds run-time text: a `{` or `}` "
+                         "in it makes format() itself raise, and that "
+                         "exception is not a YAMLPathException")
+
+
 def run(chk: Check) -> None:
     prog = chk.prog
     cl = parse_closure(prog)
     d1_stack(chk)
     d2_escape(chk, cl)
+    d2c_templates(chk, cl)
     d3_termination(chk, cl)
     chk.notes.append("closure: {} functions".format(len(cl)))
